@@ -228,6 +228,7 @@ pub fn decode_hist_from(cfg: &HistCfg, chunks: &[Vec<u16>], naming_choice: u16, 
                         Field::Slot => args.push(Arg::S(src.pick(cfg.gen.alphabet as usize) as Name)),
                         Field::PayU32 => args.push(Arg::P("1".into())),
                         Field::PaySym => args.push(Arg::P("s".into())),
+                        Field::PayOther(v) => args.push(Arg::P(v[0].to_string())),
                         Field::Kid(nb) => {
                             let mut bs = Vec::new();
                             for _ in 0..*nb {
